@@ -1018,11 +1018,19 @@ impl<'a, 'b> GeneratorState<'a> {
                                     .compiler_state
                                     .syntax_error("Break statement outside loop", pos))
                             }
-                            Some((cl, _, _)) => cl.clone(),
+                            Some((cl, _, _)) => {
+                                // A switch outside of any loop has no continue label
+                                if cl.is_empty() {
+                                    return Err(self
+                                        .compiler_state
+                                        .syntax_error("Continue statement outside loop", pos));
+                                }
+                                cl.clone()
+                            }
                         }
                     };
                     self.generate_condition(condition, pos, false, &cont_label, false)?;
-                    self.loops.last_mut().unwrap().2 = true;
+                    self.mark_continue_used(&cont_label);
                 }
                 _ => {
                     self.generate_condition(condition, pos, true, &ifend_label, false)?;
